@@ -26,7 +26,7 @@ DEFAULT_FEATURES = {
     "refined": 4, "cls": 6, "list": 2, "annlist": 3, "tuple": 0, "union": 1, "dependent": 0, "flaky": 0,
     "weights": 0, "nested": 1, "standalone": 1, "unreachable": 1, "plain": 1, "infeasible": 0,
     "max_abstract": 3, "max_classes": 9, "max_fields": 3, "future_annotations": 0, "concrete_start": 0,
-    "base_in_list": 1, "finite": 0, "nested_generic": 0, "nested_list": 0, "deep_chain": 0, "self_ref": 0, "multi_dependent": 0,
+    "base_in_list": 1, "finite": 0, "nested_generic": 0, "nested_list": 0, "deep_chain": 0, "self_ref": 0, "multi_dependent": 0, "abstract_weights": 0, "nested_start": 0,
 }
 
 
@@ -184,7 +184,10 @@ def gen_spec(H: Chooser, feat=None) -> dict:
                 parent = None
         kind = "deco" if (parent is not None or H.draw(4) == 3) else "abc"
         name = f"A{i}"
-        classes.append({"name": name, "kind": kind, "parent": parent, "weight": None, "fields": []})
+        aw = None
+        if parent is not None and feat.get("abstract_weights") and feat["weights"] and H.draw(2):
+            aw = H.pick([0.0, 0.5, 2.0, 3.0])  # a nested abstract type is a production of its parent and may be weighted too
+        classes.append({"name": name, "kind": kind, "parent": parent, "weight": aw, "fields": [], "weight_first": bool(H.draw(2))})
         abstracts.append(name)
     standalone = []
     if feat["standalone"] and H.draw(3) == 2:
@@ -284,7 +287,10 @@ def gen_spec(H: Chooser, feat=None) -> dict:
         if kids and all(c.get("weight") == 0.0 for c in kids):
             kids[0]["weight"] = 1.0
     start = "A0"
-    if feat["concrete_start"] and H.draw(4) == 3:
+    nested = [c["name"] for c in classes if c["kind"] in ("abc", "deco") and c["parent"] is not None]
+    if feat.get("nested_start") and nested and H.draw(3) == 2:
+        start = H.pick(nested)  # a sub-grammar rooted at a type that is itself a production of another type
+    elif feat["concrete_start"] and H.draw(4) == 3:
         start = H.pick([c["name"] for c in classes if c["kind"] in ("data", "plain") and c["name"][0] in "CD"])
     # considered subtypes: every concrete class, plus a seeded subset of the abstract ones, in a seeded order
     considered = [c["name"] for c in classes if c["kind"] in ("data", "plain")]
@@ -405,7 +411,13 @@ def render_source(spec) -> str:
         if c["kind"] == "abc":
             lines += [f"class {c['name']}{bases}:", "    pass"]
         elif c["kind"] == "deco":
-            lines += ["@abstract", f"class {c['name']}{bases}:", "    pass"]
+            if c.get("weight") is not None:
+                # both decorator orders are legal
+                decos = [f"@weight({c['weight']!r})", "@abstract"] if c.get("weight_first") else ["@abstract", f"@weight({c['weight']!r})"]
+                lines += decos
+            else:
+                lines.append("@abstract")
+            lines += [f"class {c['name']}{bases}:", "    pass"]
         else:
             if c.get("weight") is not None:
                 lines.append(f"@weight({c['weight']!r})")
